@@ -511,7 +511,19 @@ func (r *Runner) execMacro(a Action) {
 		if L == nil {
 			return
 		}
-		r.exec(Action{Op: "isolate", Srv: li})
+		acksLost := len(a.Set) > 1 && a.Set[1] == 1
+		if acksLost {
+			// the followers do store what the leader sends, only their
+			// acknowledgements are lost: nothing commits, yet the entries that the
+			// Restore cancels sit in the followers' logs too
+			w.Mu.Lock()
+			r.dropAppendAcks = true
+			r.lastFaultMs = w.Now()
+			w.Mu.Unlock()
+			r.feat("restore-cancels-entries-the-followers-hold")
+		} else {
+			r.exec(Action{Op: "isolate", Srv: li})
+		}
 		if len(a.Set) > 0 && a.Set[0] > 0 {
 			// ... and a membership change that cannot commit: the Restore is refused
 			// and must leave the calls in flight alone
@@ -525,9 +537,21 @@ func (r *Runner) execMacro(a Action) {
 		}
 		r.doApply(L, 2+a.N, 0)
 		w.Advance(time.Millisecond, r.sample)
+		if acksLost {
+			w.Advance(2*time.Millisecond, r.sample)
+		}
 		r.doUserRestore(L, 3, a.Arg)
 		w.Advance(time.Millisecond, r.sample)
-		r.exec(Action{Op: "heal"})
+		if acksLost {
+			w.Mu.Lock()
+			r.dropAppendAcks = false
+			r.lastFaultMs = w.Now()
+			w.Mu.Unlock()
+			w.Advance(5*time.Millisecond, r.sample)
+			r.doApply(L, 2, 0)
+		} else {
+			r.exec(Action{Op: "heal"})
+		}
 		w.Advance(60*time.Millisecond, r.sample)
 		r.feat("restore-with-calls-in-flight")
 	case "slowtransfer":
